@@ -495,6 +495,8 @@ def make_machine(ctx, info_cache, lib):
                             for i in sess.loop_needs_colour(l)})
             for kind in kinds:
                 ctx.label("has:" + kind)
+            if not sess.dead and sess.coloured_parallel_loops():
+                ctx.label("reached:coloured_worksharing_increment")
             if self.nontrivial:
                 accepted = [s for s, st_ in sess.log if st_ == "ok"]
                 key = {"src": self.case["src"], "dm": self.case["dm"],
@@ -662,6 +664,7 @@ def run(ctx):
     finally:
         lib.close()
     ctx.extra["library_invokes"] = len(lib.entries)
-    ctx.extra["pool_files"] = len({f for names in pool().values()
-                                   for f in names})
+    if ctx.shard == 0:          # the runner sums numbers over shards
+        ctx.extra["pool_files"] = len({f for names in pool().values()
+                                       for f in names})
     ctx.extra["strict_acc_kernels"] = L.STRICT_ACC_KERNELS
